@@ -623,6 +623,17 @@ class _Walker:
             neg: Cond = ()
             for case in st.cases:
                 t: ast.AST = ast.Call(func=_name("MATCH"), args=[copy.deepcopy(subj), ast.Constant(value=ast.unparse(case.pattern))], keywords=[])
+                pat = case.pattern
+                if isinstance(pat, ast.MatchValue) and isinstance(pat.value, ast.Constant) and isinstance(pat.value.value, (int, str)) \
+                        and not isinstance(pat.value.value, bool):
+                    # `case 3:` / `case "x":` (also a named constant already written out) matches exactly when `subject == 3`
+                    t = ast.Compare(left=copy.deepcopy(subj), ops=[ast.Eq()], comparators=[copy.deepcopy(pat.value)])
+                elif isinstance(pat, ast.MatchOr) and all(isinstance(q, ast.MatchValue) and isinstance(q.value, ast.Constant)
+                                                          and isinstance(q.value.value, (int, str)) and not isinstance(q.value.value, bool) for q in pat.patterns):
+                    t = ast.BoolOp(op=ast.Or(), values=[ast.Compare(left=copy.deepcopy(subj), ops=[ast.Eq()], comparators=[copy.deepcopy(q.value)])
+                                                        for q in pat.patterns])
+                elif isinstance(pat, ast.MatchAs) and pat.pattern is None and pat.name is None:
+                    t = ast.Constant(value=True)  # `case _:` matches everything
                 cenv = dict(env)
                 for n in ast.walk(case.pattern):
                     for fld in ("name", "rest"):
@@ -1543,6 +1554,16 @@ class Printer:
                     if body.startswith(k):
                         body = body[len(k):-1]
                 return f"{e.func.id}({body})"
+            if any(isinstance(a, ast.Starred) and isinstance(a.value, ast.Tuple) and not any(isinstance(x, ast.Starred) for x in a.value.elts) for a in e.args):
+                # f(*(a, b)) is f(a, b)
+                e = copy.copy(e)
+                spliced: list = []
+                for a in e.args:
+                    if isinstance(a, ast.Starred) and isinstance(a.value, ast.Tuple) and not any(isinstance(x, ast.Starred) for x in a.value.elts):
+                        spliced.extend(a.value.elts)
+                    else:
+                        spliced.append(a)
+                e.args = spliced
             sig = self._sig(e)
             args = [sh(a) for a in e.args]
             # a comprehension that is consumed at once (join / sum / sorted / list / tuple / set / min / max / dict / next / enumerate):
